@@ -94,7 +94,7 @@ Print Assumptions same_instant_fifo_cross_clock_before_refuted.
 (* a process resumed from WaitFor(q) that suspended at time t0 runs at exactly t0 + q (in Q), in phase AFTER *)
 Theorem waitfor_exact : forall cfg procs fiber until tb fuel t ph mt ro pid q g,
   In (LProc t ph mt ro pid (AWake (WkFor q) g)) (res_log (simulate cfg procs fiber until tb fuel)) ->
-  (t == g_t0 g + q)%Q /\ ph = AFTER.
+  (t == g_t0 g + uQ q)%Q /\ ph = AFTER.
 Proof. exact waitfor_exact_proof. Qed.
 Print Assumptions waitfor_exact.
 
